@@ -88,6 +88,7 @@ pub const RULES: &[(&str, &[&str])] = &[
     ("signal.mask_mismatch", &["C19"]),
     ("signal.normal_disposition", &["C19"]),
     ("signal.wrong_info", &["C19"]),
+    ("signal.left_pending", &["C19", "C02"]),
     ("signal.unexpected_event", &["C19", "C01"]),
     ("stream.after_end", &["C10"]),
     ("stream.items_left", &["C10", "C02"]),
